@@ -310,7 +310,73 @@ def eval_cross(ctx, case):
         ctx.count("cross_equal")
 
 
+def eval_repeat(ctx, case):
+    """The same nested text rendered twice, with the definitions it needs made (in another nested text) in between: the second rendering
+    must not depend on the first one having happened - compared with a document whose first block differs by one word."""
+    from docutils import nodes
+
+    src = os.path.join(TMP, "doc.md")
+    use = "use: " + " ".join(USES[u] for u in case["uses"])
+    defs = [l for l in DEFS if "{#" not in l and l != "attr para"]
+    kw = {"myst_enable_extensions": list(EXT), "doctitle_xform": False}
+
+    def wrap(lines, slot):
+        w = case["wrapper"]
+        if w == "include":
+            fn = f"rep{slot}.md"
+            with open(os.path.join(TMP, fn), "w", encoding="utf8") as f:
+                f.write("\n".join(lines) + "\n")
+            return ["```{include} " + fn, "```"]
+        if w == "subst":
+            kw.setdefault("myst_substitutions", {})[f"k{slot}"] = "\n".join(lines)
+            return ["{{ k" + str(slot) + " }}"]
+        return wrap_directive(lines, case["layer"])
+
+    def build(first):
+        kw.pop("myst_substitutions", None)
+        # slot names: identical text gets the identical wrapper (same file / same substitution key), as a user would write it
+        a = wrap([first], "A" if first == use else "B")
+        d = wrap(defs, "D")
+        c = wrap([use], "A")
+        return "\n".join(a + [""] + d + [""] + c) + "\n"
+
+    def last_use(doc):
+        found = None
+        for p in doc.findall(nodes.paragraph):
+            if p.astext().startswith("use:"):
+                found = p
+        if found is None:
+            return None
+        q = found.deepcopy()
+        drive.mask_lines(q)
+        return q.pformat()
+
+    try:
+        t1 = build(use)
+        d1, w1 = drive.parse(t1, source_path=src, **dict(kw))
+        t2 = build(use + " changed")
+        d2, w2 = drive.parse(t2, source_path=src, **dict(kw))
+    except Exception as e:  # noqa: BLE001
+        ctx.count("no_document:" + type(e).__name__)
+        return
+    a, b = last_use(d1), last_use(d2)
+    ctx.count("repeat_compared")
+    if a is None or b is None:
+        ctx.count("wrapper_not_found")
+        return
+    if a != b:
+        ctx.violation(f"repeat:{case['wrapper'] if case['wrapper'] in ('include', 'subst') else 'directive'}:second-rendering-depends-on-first", "the same nested text renders differently the second time, depending on whether the identical text was "
+                      "rendered earlier in the document", case, {"doc_repeated": t1, "doc_first_block_changed": t2, "last_use_repeated": a, "last_use_other": b})
+    else:
+        ctx.count("repeat_equal")
+        if "<reference" in a or "<footnote_reference" in a:
+            ctx.count("repeat_equal_and_resolved")
+
+
 def eval_case(ctx, case):
+    if case["kind"] == "repeat":
+        eval_repeat(ctx, case)
+        return True
     if case["kind"] == "cross":
         eval_cross(ctx, case)
         return True
@@ -361,13 +427,17 @@ def run_shard(ctx):
             ctx.sample(case)
         if (i & 0x1F) == 0 and ctx.out_of_time():
             break
+    for i in range(60 if quick else 3000):
+        case = {"kind": "repeat", "uses": R.choice([["refdef"], ["footnote"], ["target"], ["refdef", "footnote"], ["refdef", "footnote", "target"]]), "wrapper": R.choice(["directive", "directive", "include", "subst"]), "layer": rand_layer(R)}
+        eval_case(ctx, case)
+        ctx.case(repr(case), True)
     if ctx.shard == 0:
         ctx.notes["spec_bodies"] = len(SPEC)
 
 
 def finalize(m, tier):
     c = m["counters"]
-    for k, lo in (("pairs_compared", 8000), ("pairs_equal:directive", 4000), ("pairs_equal:include", 1500), ("pairs_equal:subst_block", 500), ("pairs_equal:subst_inline", 500), ("cross_compared", 1500), ("cross_equal", 800)):
+    for k, lo in (("pairs_compared", 8000), ("pairs_equal:directive", 4000), ("pairs_equal:include", 1500), ("pairs_equal:subst_block", 500), ("pairs_equal:subst_inline", 500), ("cross_compared", 1500), ("cross_equal", 800), ("repeat_compared", 500), ("repeat_equal_and_resolved", 200)):
         if c.get(k, 0) < lo:
             m["inconclusive"].append(f"monitor observed only {c.get(k, 0)} '{k}' events (< {lo})")
     bad = sum(v for k, v in c.items() if k.startswith("no_document:")) + c.get("wrapper_not_found", 0)
